@@ -18,7 +18,7 @@ for m in $out/m*; do
     (cd $wt && make -C tests test 2>&1 | grep -E "^[0-9]+%|Checks" | tr '\n' ' '); echo
     (cd $m && timeout 300 ./demo.sh $wt >/dev/null 2>&1); echo "demo-clean-exit=$?"
     clean
-    echo "== patched"; git -C $wt apply $m/patch.diff && echo apply-ok || echo apply-FAIL
+    echo "== patched"; (git -C $wt apply $m/patch.diff 2>/dev/null || (cd $wt && patch -p1 -s < $m/patch.diff)) && echo apply-ok || echo apply-FAIL   # later fix: commits shift lines: fall back to patch(1) with fuzz
     (cd $wt && make -j8 it >/dev/null 2>&1 && echo build-ok || echo build-FAIL)
     (cd $wt && make -C tests test 2>&1 | grep -E "^[0-9]+%|Checks" | tr '\n' ' '); echo
     (cd $m && timeout 300 ./demo.sh $wt >/dev/null 2>&1); echo "demo-patched-exit=$?"
